@@ -170,6 +170,29 @@ def explore_role(chk: Check, it: Interp, role: str, size: int, max_states: int) 
     return {"role": role, "size": size, "states": len(seen), "transitions": transitions}
 
 
+class _Collector:
+    """Stand-in for Check inside worker processes (collects failures)."""
+
+    def __init__(self) -> None:
+        self.fails: list = []
+        self.violations: list = []
+
+    def fail(self, rule: str, inst: str, construct: str, msg: str, detail: Any = None) -> None:
+        if len(self.fails) < 40:
+            self.fails.append((rule, inst, construct, msg, detail))
+        self.violations.append(inst)
+
+
+def _explore_job(prog, job: tuple) -> dict:
+    role, size = job
+    it = Interp(prog, max_steps=10**11)
+    it.record_events = False
+    col = _Collector()
+    res = explore_role(col, it, role, size, 2_000_000)  # type: ignore[arg-type]
+    res["fails"] = col.fails
+    return res
+
+
 def check(chk: Check) -> None:
     prog = chk.program
     chk.rule("C05.FIXPOINT.mirror", "closed reachable set of joint writer/reader states: every emitted entry id + reference resolves on the reader to the writer's key", floor=12)
@@ -180,18 +203,19 @@ def check(chk: Check) -> None:
     sizes = (1, 2, 3, 4) if chk.tier == "quick" else (1, 2, 3, 4, 5, 6)
     chk.trusted += ["OrderedDict / deque models (jstat.models.TRUSTED_FACTS)", "key-renaming symmetry: keys are only compared for equality and emptiness (property text: alphabets of size+2 suffice)"]
     chk.undecided += ["table sizes above the enumerated bound (the rules only compare indices, so larger sizes add no new ordering patterns)", "statement-level in-use eviction (C18)"]
-    it = Interp(prog, max_steps=10**10)
-    it.record_events = False
+    from ..par import pmap
+
+    jobs = [(role, s_) for role in ROLES for s_ in sizes]
     total_states = 0
-    for role in ROLES:
-        for s in sizes:
-            before = len(chk.violations)
-            res = explore_role(chk, it, role, s, 400_000)
-            total_states += res["states"]
-            chk.paths += res["transitions"]
-            if len(chk.violations) == before:
-                chk.ok("C05.FIXPOINT.mirror", f"{role} S={s}", res)
-                chk.ok("C05.TABLE.range", f"{role} S={s}", {"transitions_checked": res["transitions"], "ids_within": [0, s]})
+    for res in pmap(_explore_job, jobs, min_parallel=4):
+        total_states += res["states"]
+        chk.paths += res["transitions"]
+        role, s_ = res["role"], res["size"]
+        for rule, inst, construct, msg, detail in res["fails"]:
+            chk.fail(rule, inst, construct, msg, detail)
+        if not res["fails"]:
+            chk.ok("C05.FIXPOINT.mirror", f"{role} S={s_}", {k_: v for k_, v in res.items() if k_ != "fails"})
+            chk.ok("C05.TABLE.range", f"{role} S={s_}", {"transitions_checked": res["transitions"], "ids_within": [0, s_]})
     chk.note(f"reachable joint states (up to key renaming): {total_states}")
     chk.functions.update(
         ["pyjelly.serialize.lookup.Lookup.insert", "pyjelly.serialize.lookup.Lookup.make_last_to_evict", "pyjelly.serialize.lookup.LookupEncoder.encode_entry_index", "pyjelly.serialize.lookup.LookupEncoder.encode_term_index"]
